@@ -3,13 +3,14 @@ import random
 from ..comp import contract as CT
 from ..comp import textbook as TB
 from ..comp import storage as ST_
+from ..comp import chp as CH_
 from .. import gen
 
 ID = 'C12'
 THEOREMS = CT.THEOREMS_C12 + [
     ('EAO.Properties.C19', 'EAO.C19.dt_real', 'each step length equals the real elapsed time to the next point in main time units, for any point list (DST, calendar months)'),
-] + ST_.THEOREMS_C12_STORAGE
-PARTIAL = ['unit_change is proved for the contract / transport / multi-commodity builders (rates not given as price keys) and for the Storage builder (full equality of the built problem under rescaling of rates, holding cost and maximum holding time); for CHP durations (min runtime etc.) and price-key rates the statement rests on the metamorphic oracle (re-optimisation under another main time unit)']
+] + ST_.THEOREMS_C12_STORAGE + CH_.THEOREMS_C12_CHP
+PARTIAL = ['unit_change is proved builder by builder: contract / transport / multi-commodity (rates not given as price keys), Storage (all options), CHP / Plant incl. ramp profiles, min-load costs and costs_only (rates not given as price keys; the constructor guard on declared histories must be stable under the change: it is evaluated on raw values, known finding F-06d); for price-key rates and for LinkedAsset the statement rests on the metamorphic oracles']
 COMPONENTS = ['contract/transport builders under unit pairs (dt scaling)', 'independent reference LP (harness/comp/textbook.py) on zone-aware daily grids across daylight-saving switches: costs and limits billed by elapsed time']
 RULE = ('metamorphic: random small portfolios (contracts, transports, storages, plants with durations) re-expressed for another main time unit among h, d, min, s (rates, inflow, holding cost, ramps scaled; durations scaled inversely) and re-optimised on the real code: value and dispatched volumes equal; '
         'totals on DST / calendar-month grids equal rate x elapsed time; builder correspondence cases; non-trivial = solved pair with non-zero value; distinct by case hash')
@@ -60,6 +61,10 @@ def scenarios(seed, tier):
             yield 'dst%d' % i, {'stream': 'textbook', 'case': s}
     for x in _split_cases(seed, 25 if tier == 'quick' else 250):
         yield x
+    # CHP / Plant / min-load CHP, with and without ramp profiles: the REAL problems of a case and of the case re-expressed in another
+    # main time unit are equal (theorem unit_change_chp*; unit pairs h<->min, h<->d, min<->s)
+    for i in range(n // 5):
+        yield 'chpunit%d' % i, {'stream': 'chp-unit', 'case': CH_.gen_unit_change_case(random.Random(rnd.getrandbits(48)))}
     # durations of a linked asset (time_back / time_forward / time already running) follow the main time unit like all others
     import math
     for i in range(max(6, n // 16)):
@@ -178,6 +183,10 @@ def run_chp_profiles(c):
 
 
 def run_case(c, drv):
+    if c['stream'] == 'chp-unit':
+        v, obs = CH_.oracle_unit_change(c['case'])
+        return {'evaluated': 2, 'nontrivial': bool(obs.get('compared', True)), 'features': ['stream:chp-unit-change'] + list(obs.get('features', [])), 'disagreements': [],
+                'violations': v, 'observed': {k: obs[k] for k in obs if k != 'features'}}
     if c['stream'] == 'chp-profiles':
         return run_chp_profiles(c)
     if c['stream'] == 'linked':
